@@ -39,6 +39,49 @@ func (p *Prog) verifyFunc(fn *ssa.Function, ct *Contract) (res *FuncResult) {
 	if ct != nil {
 		vc.guarded = ct.Guarded
 	}
+	// result types of the counted callees that occur in this function, so that
+	// first(L) / last(L) can be mentioned before the first call (loop entry)
+	{
+		var scan func(f *ssa.Function)
+		scan = func(f *ssa.Function) {
+			for _, b := range f.Blocks {
+				for _, in := range b.Instrs {
+					ci, ok := in.(ssa.CallInstruction)
+					if !ok {
+						continue
+					}
+					c := ci.Common()
+					k := ""
+					if c.IsInvoke() {
+						k = ifaceMethodKey(c)
+					} else if cf, ok := c.Value.(*ssa.Function); ok {
+						if cf.Origin() != nil {
+							cf = cf.Origin()
+						}
+						k = funcKey(cf)
+					}
+					for _, lab := range p.countOf[k] {
+						if !vc.labels[lab] {
+							continue
+						}
+						if vc.lastType == nil {
+							vc.lastType = map[string]types.Type{}
+						}
+						if _, seen := vc.lastType[lab]; seen {
+							continue
+						}
+						rt := vc.resultType(c.Signature())
+						vc.lastType[lab] = rt
+						for i, kd := range p.lay.of(rt).Kinds {
+							vc.ensureKey(fmt.Sprintf("g.last.%s:%d", lab, i), kd.Sort())
+							vc.ensureKey(fmt.Sprintf("g.first.%s:%d", lab, i), kd.Sort())
+						}
+					}
+				}
+			}
+		}
+		scan(fn)
+	}
 	fr := vc.newFrame(fn, 0)
 	fr.top = true
 	fr.contract = ct
